@@ -318,7 +318,45 @@ fn one_wtwin<T: Sc>(out: &mut Out, rng: &mut Rng, thorough: bool, i: usize) {
     let fl = c.flavour;
     let w = c.w.clone().unwrap();
     let n = c.recipe.n();
-    let primary = match dynp(fl, wrap_any(any_model(&c.recipe, &c.init, c.built)), &c.y, Some(&w), c.eps) {
+    // one case in seven (cycled; 7 is coprime to the 6 weight kinds): the basis EVALUATION fails at some of
+    // the parameter vectors of the history (whenever the first parameter exceeds the median) - for the
+    // weighted problem and for its row-scaled twin alike - and the history goes on at parameters where it
+    // succeeds: the weights must still be in effect afterwards (round 11).  One such case in two also
+    // starts at parameters where the evaluation fails.
+    let fail_eval: Option<T> = if i % 7 == 4 && i % 10 != 7 {
+        let mut a0: Vec<f64> = c.history.iter().map(|a| a[0].f()).collect();
+        a0.push(c.init[0].f());
+        a0.sort_by(|x, y| x.partial_cmp(y).unwrap());
+        let thr = a0[a0.len() / 2] + 1e-3;
+        if (i / 7) % 2 == 1 {
+            let p = c.recipe.p();
+            let mut bad = c.init.clone();
+            bad[0] = T::of(thr + 1.0);
+            let good: Vec<T> = c.init.clone();
+            let mut h = vec![good.clone()];
+            h.extend(c.history.iter().cloned());
+            c.history = h;
+            c.init = bad;
+            let _ = p;
+        }
+        Some(T::of(thr))
+    } else {
+        None
+    };
+    let primary_model = if fail_eval.is_some() {
+        AnyModel::Dyn(Box::new(RowModel {
+            inner: any_model(&c.recipe, &c.init, c.built),
+            scale: None,
+            overwrite: vec![],
+            entries: vec![],
+            fail_deriv: None,
+            dentries: vec![],
+            fail_eval,
+        }))
+    } else {
+        any_model(&c.recipe, &c.init, c.built)
+    };
+    let primary = match dynp(fl, wrap_any(primary_model), &c.y, Some(&w), c.eps) {
         Some(p) => p,
         None => return,
     };
@@ -332,7 +370,7 @@ fn one_wtwin<T: Sc>(out: &mut Out, rng: &mut Rng, thorough: bool, i: usize) {
             entries: vec![],
             fail_deriv: None,
             dentries: vec![],
-            fail_eval: None,
+            fail_eval,
         }));
         let mut ys = c.y.clone();
         for j in 0..ys.ncols() {
@@ -373,6 +411,12 @@ fn one_wtwin<T: Sc>(out: &mut Out, rng: &mut Rng, thorough: bool, i: usize) {
         }
     }
     let names: Vec<String> = twins.iter().map(|t| t.prefix.clone()).collect();
+    if fail_eval.is_some() {
+        // the harness tables do not describe a model that fails to evaluate: judged by the twins alone
+        twins.retain(|t| t.prefix == "twinW");
+        emit_twin_case(out, "twins=twinW faileval=1 only=twins", &c, primary, twins);
+        return;
+    }
     emit_twin_case(out, &format!("twins={}", names.join(",")), &c, primary, twins);
 }
 
